@@ -265,7 +265,7 @@ func decodeBuffer(r io.Reader, byteReader io.ByteReader, buf []byte, forCompare 
 						}
 						return nil, we.With(e5.With(DecodeError), e5.With(Offset(offset)))(err)
 					} else {
-						offset += int64(length)
+						offset += int64(l)
 					}
 					token.Kind = kind
 					token.Value = builder.String()
@@ -362,7 +362,7 @@ func decodeBuffer(r io.Reader, byteReader io.ByteReader, buf []byte, forCompare 
 						}
 						return nil, we.With(e5.With(DecodeError), e5.With(Offset(offset)))(err)
 					} else {
-						offset += int64(length)
+						offset += int64(l)
 					}
 					token.Kind = kind
 					token.Value = builder.Bytes()
